@@ -1302,4 +1302,253 @@ theorem search_items {tree : Array Node} {bucket numpoints : Nat} {d : Nat → N
   · rw [if_neg hc] at h; cases h
     exact ⟨List.Pairwise.nil, fun it h => by simp at h⟩
 
+/-! ## `exhaustive = false`: the first `k` points found in the window; fewer than `k` results ⇒ the search was exhaustive -/
+
+/-- invariant while fewer than `k` results have been found: `tau` is still `maxdist` -/
+structure InvN (Q : Query) (k : Nat) (s : St) : Prop where
+  sorted : LexSorted s.res
+  len : s.res.length < k
+  win : ∀ x ∈ dists s.res, inWindow Q x = true
+  tau : s.tau = Q.maxdist
+  exit : s.exit = false
+
+theorem visit_ne (Q : Query) (k : Nat) (dq : Nat → Int) (s : St) (idx : Nat)
+    (hex : Q.exhaustive = false) (h : InvN Q k s) :
+    ((visit Q k dq s idx).exit = false → InvN Q k (visit Q k dq s idx) ∧
+      dists (visit Q k dq s idx).res = sortAsc (dists s.res ++ [dq idx].filter (inWindow Q))) ∧
+    ((visit Q k dq s idx).exit = true → (visit Q k dq s idx).res.length = k ∧
+      ∀ x ∈ dists (visit Q k dq s idx).res, inWindow Q x = true) := by
+  have hsd := sorted_dists h.sorted
+  have hlen := h.len
+  unfold visit
+  by_cases hacc : Q.mindist < dq idx ∧ dq idx ≤ s.tau
+  · rw [if_pos hacc]
+    have hwin : inWindow Q (dq idx) = true := (inWindow_iff Q _).mpr ⟨hacc.1, by rw [h.tau] at hacc; exact hacc.2⟩
+    have hfilt : [dq idx].filter (inWindow Q) = [dq idx] := by simp [hwin]
+    have hne : s.res.length ≠ k := by omega
+    have hr_sorted := lexSorted_insAsc (dq idx, (idx : Int)) _ h.sorted
+    have hr_dists := dists_insAsc (dq idx) (idx : Int) _ h.sorted
+    have hsort : sortAsc (dists s.res ++ [dq idx]) = insInt (dq idx) (dists s.res) := by
+      rw [sortAsc_perm (List.perm_append_comm : (dists s.res ++ [dq idx]).Perm ([dq idx] ++ dists s.res)), sortAsc_append,
+        sortAsc_of_sorted _ hsd]; rfl
+    have hnwin : ∀ x ∈ dists (insAsc (dq idx, (idx : Int)) s.res), inWindow Q x = true := by
+      intro x hx; rw [hr_dists] at hx
+      rcases mem_insInt.mp hx with rfl | hx
+      · exact hwin
+      · exact h.win x hx
+    unfold accept
+    simp only [if_neg hne, hfilt]
+    by_cases hl : (insAsc (dq idx, (idx : Int)) s.res).length = k
+    · simp only [if_pos hl, hex, Bool.false_eq_true, if_false]
+      exact ⟨fun hc => (by cases hc), fun _ => ⟨hl, hnwin⟩⟩
+    · simp only [if_neg hl]
+      refine ⟨fun _ => ⟨⟨hr_sorted, ?_, hnwin, h.tau, h.exit⟩, ?_⟩, fun hc => ?_⟩
+      · rw [length_insAsc] at hl ⊢; omega
+      · rw [hr_dists, hsort]
+      · rw [h.exit] at hc; cases hc
+  · rw [if_neg hacc]
+    refine ⟨fun _ => ⟨h, ?_⟩, fun hc => (by rw [h.exit] at hc; cases hc)⟩
+    have : [dq idx].filter (inWindow Q) = [] := by
+      rw [List.filter_eq_nil_iff]
+      intro y hy hw
+      simp only [List.mem_singleton] at hy; subst hy
+      have := (inWindow_iff Q _).mp hw
+      rw [h.tau] at hacc
+      omega
+    rw [this, List.append_nil, sortAsc_of_sorted _ hsd]
+
+theorem relv_maxdist (Q : Query) (L : List Int) : L.filter (relv Q Q.maxdist) = L.filter (inWindow Q) := by
+  apply List.filter_congr
+  intro y _
+  simp only [relv, inWindow]
+  by_cases h : y ≤ Q.maxdist <;> simp [h]
+
+theorem sortAsc_sortAsc_append (A B : List Int) : sortAsc (sortAsc A ++ B) = sortAsc (A ++ B) := by
+  rw [sortAsc_perm (List.perm_append_comm (l₁ := sortAsc A)), sortAsc_perm (List.perm_append_comm (l₁ := A)),
+    sortAsc_append, sortAsc_append, sortAsc_of_sorted _ (sorted_sortAsc _)]
+
+theorem visitLeaves_ne (Q : Query) (k : Nat) (dq : Nat → Int) (hex : Q.exhaustive = false) :
+    ∀ (l : List Int) (s : St), InvN Q k s →
+      ((visitLeaves Q k dq s l).exit = false → InvN Q k (visitLeaves Q k dq s l) ∧
+        dists (visitLeaves Q k dq s l).res = sortAsc (dists s.res ++ ((validLeaves l).map dq).filter (inWindow Q))) ∧
+      ((visitLeaves Q k dq s l).exit = true → (visitLeaves Q k dq s l).res.length = k ∧
+        ∀ x ∈ dists (visitLeaves Q k dq s l).res, inWindow Q x = true) := by
+  intro l
+  induction l with
+  | nil =>
+    intro s h
+    simp only [visitLeaves, validLeaves, List.map_nil, List.filter_nil, List.append_nil]
+    exact ⟨fun _ => ⟨h, (sortAsc_of_sorted _ (sorted_dists h.sorted)).symm⟩, fun hc => (by rw [h.exit] at hc; cases hc)⟩
+  | cons i is ih =>
+    intro s h
+    by_cases hi : i < 0
+    · simp only [visitLeaves, hi, if_true, validLeaves, List.map_nil, List.filter_nil, List.append_nil]
+      exact ⟨fun _ => ⟨h, (sortAsc_of_sorted _ (sorted_dists h.sorted)).symm⟩, fun hc => (by rw [h.exit] at hc; cases hc)⟩
+    · have hv : validLeaves (i :: is) = i.toNat :: validLeaves is := by simp [validLeaves, hi]
+      obtain ⟨v1, v2⟩ := visit_ne Q k dq s i.toNat hex h
+      by_cases hexit : (visit Q k dq s i.toNat).exit = true
+      · have hres : visitLeaves Q k dq s (i :: is) = visit Q k dq s i.toNat := by
+          simp only [visitLeaves, hi, if_false, hexit, if_true]
+        rw [hres]
+        exact ⟨fun hc => (by rw [hexit] at hc; cases hc), fun _ => v2 hexit⟩
+      · have hexit' : (visit Q k dq s i.toNat).exit = false := by simpa using hexit
+        have hres : visitLeaves Q k dq s (i :: is) = visitLeaves Q k dq (visit Q k dq s i.toNat) is := by
+          simp only [visitLeaves, hi, if_false, hexit', Bool.false_eq_true]
+        rw [hres, hv]
+        obtain ⟨h1, hd1⟩ := v1 hexit'
+        obtain ⟨w1, w2⟩ := ih _ h1
+        refine ⟨fun hc => ?_, w2⟩
+        obtain ⟨h2, hd2⟩ := w1 hc
+        refine ⟨h2, ?_⟩
+        rw [hd2, hd1, sortAsc_sortAsc_append]
+        have e : ((i.toNat :: validLeaves is).map dq).filter (inWindow Q) =
+            [dq i.toNat].filter (inWindow Q) ++ ((validLeaves is).map dq).filter (inWindow Q) := by
+          rw [← List.filter_append]; rfl
+        rw [e, List.append_assoc]
+
+theorem loop_ne {tree : Array Node} {bucket : Nat} {d : Nat → Nat → Int} {dq : Nat → Int} (hm : MetricQ d dq)
+    (Q : Query) (k : Nat) (hex : Q.exhaustive = false) (htol : Q.tol = 0) :
+    ∀ (fuel : Nat) (todo : List Item) (ts : List VT) (s : St),
+      Zip (TodoR tree bucket d dq) todo ts → InvN Q k s → (ts.flatMap VT.pts).length ≤ fuel →
+      ∃ s', loop tree bucket dq Q k fuel todo s = some s' ∧ s'.res.length ≤ k ∧ (∀ x ∈ dists s'.res, inWindow Q x = true) ∧
+        (s'.res.length < k → dists s'.res = sortAsc (dists s.res ++ (D dq ts).filter (inWindow Q))) := by
+  intro fuel
+  induction fuel with
+  | zero =>
+    intro todo ts s hz h hf
+    cases hz with
+    | nil =>
+      refine ⟨s, loop_nil .., Nat.le_of_lt h.len, h.win, fun _ => ?_⟩
+      simp only [D, List.flatMap_nil, List.map_nil, List.filter_nil, List.append_nil]
+      exact (sortAsc_of_sorted _ (sorted_dists h.sorted)).symm
+    | @cons x t xs ts' hx hxs =>
+      exfalso
+      have := rep_pts_ne_nil hx.2.1 hx.1
+      simp only [List.flatMap_cons, List.length_append] at hf
+      have : t.pts.length ≠ 0 := by intro hc; exact this (List.length_eq_zero_iff.mp hc)
+      omega
+  | succ fuel ih =>
+    intro todo ts s hz h hf
+    cases hz with
+    | nil =>
+      refine ⟨s, loop_nil .., Nat.le_of_lt h.len, h.win, fun _ => ?_⟩
+      simp only [D, List.flatMap_nil, List.map_nil, List.filter_nil, List.append_nil]
+      exact (sortAsc_of_sorted _ (sorted_dists h.sorted)).symm
+    | @cons x t xs ts' hx hxs =>
+      obtain ⟨prio, n⟩ := x
+      obtain ⟨hn, hrep, hbnd, hlow⟩ := hx
+      simp only at hn hrep hlow
+      have hne := rep_pts_ne_nil hrep hn
+      have hlen : t.pts.length ≠ 0 := by intro hc; exact hne (List.length_eq_zero_iff.mp hc)
+      simp only [List.flatMap_cons, List.length_append] at hf
+      rw [loop]
+      by_cases hgo : 0 ≤ n ∧ -prio ≤ s.tau - Q.tol
+      · rw [if_pos hgo]
+        cases hrep with
+        | nil hneg => omega
+        | @leaf _ ls _ hget hnonempty =>
+          simp only [hget]
+          obtain ⟨v1, v2⟩ := visitLeaves_ne Q k dq hex (ls.take bucket) s h
+          simp only [VT.pts] at hf hlow hlen
+          by_cases hexit : (visitLeaves Q k dq s (List.take bucket ls)).exit = true
+          · rw [if_pos hexit]
+            obtain ⟨hl, hw⟩ := v2 hexit
+            exact ⟨_, rfl, Nat.le_of_eq hl, hw, fun hc => (by omega)⟩
+          · rw [if_neg hexit]
+            have hexit' : (visitLeaves Q k dq s (List.take bucket ls)).exit = false := by simpa using hexit
+            obtain ⟨h1, hd1⟩ := v1 hexit'
+            obtain ⟨s', hs', hl', hw', hd'⟩ := ih xs ts' _ hxs h1 (by omega)
+            refine ⟨s', hs', hl', hw', fun hc => ?_⟩
+            rw [hd' hc, hd1, sortAsc_sortAsc_append, D_cons, List.filter_append, List.append_assoc]
+            rfl
+        | @inner _ v lo0 up0 c0 lo1 up1 c1 t0 t1 _ hget hr0 hr1 =>
+          simp only [hget]
+          obtain ⟨v1, v2⟩ := visit_ne Q k dq s v hex h
+          simp only [VT.pts] at hf hlow hlen
+          obtain ⟨hb0, hb1, hbd0, hbd1⟩ := hbnd
+          by_cases hexit : (visit Q k dq s v).exit = true
+          · rw [if_pos hexit]
+            obtain ⟨hl, hw⟩ := v2 hexit
+            exact ⟨_, rfl, Nat.le_of_eq hl, hw, fun hc => (by omega)⟩
+          · rw [if_neg hexit]
+            have hexit' : (visit Q k dq s v).exit = false := by simpa using hexit
+            obtain ⟨h1, hd1⟩ := v1 hexit'
+            rw [htol, Int.sub_zero, h1.tau]
+            obtain ⟨tsA, hzA, hlA, hpA⟩ := pushChild_spec hm Q Q.maxdist v lo0 up0 c0 t0 hr0 hbd0 hb0 xs ts' hxs
+            obtain ⟨tsB, hzB, hlB, hpB⟩ := pushChild_spec hm Q Q.maxdist v lo1 up1 c1 t1 hr1 hbd1 hb1 _ tsA hzA
+            simp only [List.length_cons, List.length_append] at hf
+            obtain ⟨s', hs', hl', hw', hd'⟩ := ih _ tsB _ hzB h1 (by omega)
+            refine ⟨s', hs', hl', hw', fun hc => ?_⟩
+            rw [hd' hc, hd1, sortAsc_sortAsc_append]
+            apply sortAsc_perm
+            simp only [relv_maxdist] at hpA hpB
+            have hD : D dq (VT.inner v lo0 up0 lo1 up1 t0 t1 :: ts') = [dq v] ++ ((t0.pts.map dq ++ t1.pts.map dq) ++ D dq ts') := by
+              rw [D_cons]; simp [VT.pts]
+            rw [hD]
+            simp only [List.filter_append, List.append_assoc]
+            apply List.Perm.append_left
+            apply List.Perm.append_left
+            refine hpB.trans ?_
+            refine (List.Perm.append_left _ hpA).trans ?_
+            rw [← List.append_assoc, ← List.append_assoc]
+            exact List.Perm.append_right _ List.perm_append_comm
+      · rw [if_neg hgo]
+        obtain ⟨s', hs', hl', hw', hd'⟩ := ih xs ts' s hxs h (by omega)
+        refine ⟨s', hs', hl', hw', fun hc => ?_⟩
+        rw [hd' hc, D_cons, List.filter_append]
+        have : (t.pts.map dq).filter (inWindow Q) = [] := by
+          rw [List.filter_eq_nil_iff]
+          intro y hy hw
+          obtain ⟨p, hp, rfl⟩ := List.mem_map.mp hy
+          have := hlow p hp
+          have := (inWindow_iff Q _).mp hw
+          rw [htol, h.tau] at hgo
+          omega
+        rw [this, List.nil_append]
+
+/-- `exhaustive = false`, `tol = 0`: at most `k` results, all inside the window; if fewer than `k` are returned they are
+    *all* points of the window (the search was exhaustive) -/
+theorem search_ne {tree : Array Node} {bucket numpoints : Nat} {d : Nat → Nat → Int} {dq : Nat → Int}
+    (hm : MetricQ d dq) (Q : Query) (hex : Q.exhaustive = false) (htol : Q.tol = 0)
+    (hinv : TreeInv tree bucket numpoints d) :
+    ∃ res, search tree numpoints bucket dq Q = some res ∧ res.length ≤ Q.k.toNat ∧
+      (∀ x ∈ dists res, inWindow Q x = true) ∧
+      (res.length < Q.k.toNat → dists res = sortAsc (((List.range numpoints).map dq).filter (inWindow Q))) := by
+  unfold search
+  by_cases hc : numpoints > 0 ∧ Q.k > 0 ∧ Q.maxdist > Q.mindist
+  · rw [if_pos hc]
+    obtain ⟨t, hrep, hb, hperm⟩ := hinv
+    have hlen : t.pts.length = numpoints := by rw [hperm.length_eq, List.length_range]
+    have hroot : 0 ≤ (tree.size : Int) - 1 := by
+      by_cases hneg : (tree.size : Int) - 1 < 0
+      · have := rep_neg hrep hneg
+        rw [this] at hlen; simp at hlen; omega
+      · omega
+    have hz : Zip (TodoR tree bucket d dq) [(1, (tree.size : Int) - 1)] [t] :=
+      Zip.cons ⟨hroot, hrep, hb, fun p _ => by have := hm.nonneg p; omega⟩ Zip.nil
+    have h0 : InvN Q Q.k.toNat { tau := Q.maxdist, res := [], exit := false } :=
+      ⟨List.Pairwise.nil, by simp; omega, by simp [dists], rfl, rfl⟩
+    obtain ⟨s', hs', hl', hw', hd'⟩ := loop_ne hm Q Q.k.toNat hex htol numpoints _ [t] _ hz h0 (by simp [hlen])
+    refine ⟨s'.res, by rw [hs']; rfl, hl', hw', fun hlt => ?_⟩
+    rw [hd' hlt]
+    simp only [dists, List.map_nil, List.nil_append]
+    apply sortAsc_perm
+    apply List.Perm.filter
+    simp only [D, List.flatMap_cons, List.flatMap_nil, List.append_nil]
+    exact hperm.map dq
+  · rw [if_neg hc]
+    refine ⟨[], rfl, by simp, by simp [dists], fun hlt => ?_⟩
+    simp only [List.length_nil] at hlt
+    by_cases h1 : numpoints > 0
+    · have h2 : Q.k > 0 := by omega
+      have h3 : ¬ Q.maxdist > Q.mindist := fun h3 => hc ⟨h1, h2, h3⟩
+      have : ((List.range numpoints).map dq).filter (inWindow Q) = [] := by
+        rw [List.filter_eq_nil_iff]
+        intro y _ hw
+        have := (inWindow_iff Q y).mp hw
+        omega
+      rw [this]; simp [dists, sortAsc]
+    · have : numpoints = 0 := by omega
+      subst this; simp [dists, sortAsc]
+
 end GeoVerif.VPTree
